@@ -10,6 +10,7 @@ import atexit
 
 from .common import vec, mat, shrink_list
 
+STALE = 5 * 10 ** 5          # stale costs an individual may carry into a request: recognisable, never a true value
 PRED_BASE = 10 ** 6      # predictions are recognisable: never equal to a true objective value
 
 
@@ -119,6 +120,8 @@ def run_impl(case):
             if not case["default_regressor"]:
                 sur.regressor = StubSmt(fits)
         problem.surrogate = sur
+        if case.get("eval_stats_off"):
+            sur.eval_stats = False       # an option about scoring the regressor; the accounting must not depend on it
         if kind != "eval":
             if case["train_step"] is not None:
                 sur.train_step = case["train_step"]
@@ -142,6 +145,10 @@ def run_impl(case):
             for i, (x, _) in enumerate(case["requests"]):
                 state["i"] = i
                 ind = Individual([float(t) for t in x])
+                if case.get("stale_costs") and (i * 7 + len(x)) % 3 == 0 and not case["via_job"]:
+                    # the requested individual already carries costs (restored from a store, or predicted earlier): a
+                    # request is still answered by a prediction or by exactly one true evaluation of its vector
+                    ind.costs = [float(STALE + i)] * len(case["obj"])
                 if case["via_job"]:
                     job.evaluate(ind)
                     returned.append([float(t) for t in ind.costs])
@@ -292,12 +299,19 @@ def gen_case(rng, quick, default_regressor=False):
             "default_regressor": False}
     if rng.random() < 0.2:
         case["nonfinite"] = True     # some true objective values are +-inf / nan
+    if rng.random() < 0.25 and wrapper != "scikit":
+        # (not for the scikit wrapper: with eval_stats off its train() compares the never-computed score None with the
+        # threshold and raises TypeError on the unchanged code - an option outside C19's quantifier, see DESIGN 11.2)
+        case["eval_stats_off"] = True
+    if rng.random() < 0.2:
+        case["stale_costs"] = True
     if wrapper != "eval" and rng.random() < 0.25:
         k = rng.randint(1, 7)
         case["preload"] = [([rng.randint(-50, 50) for _ in range(n)], [rng.randint(-99, 99) for _ in range(nobj)]) for _ in range(k)]
     if default_regressor:
         case.pop("preload", None)
         case.pop("nonfinite", None)
+        case.pop("stale_costs", None)
         # the constructors' own regressors (GaussianProcessRegressor / KRG): few, distinct points, rare retraining
         case["wrapper"] = rng.choice(["scikit", "smt"])
         case["n"] = n = 1
